@@ -413,3 +413,25 @@ func init() {
 	regScenario("apply-fine1", mk(FSMPlain, false))
 	regScenario("apply-fine1-batching", mk(FSMBatching, true))
 }
+
+func init() {
+	// five voters: the leader keeps one follower, the other three are cut off; one reachable voter is not a majority
+	regScenario("verify5-pair", func() *Scenario {
+		return &Scenario{Nodes: voters(5), Devs: DevAllNet | DevStepEarly | DevTimer, Horizon: 600,
+			Goal: func(w *World) bool { return w.scriptDone() && w.callsDone() },
+			Steps: []Step{
+				stepApplyLeader("apply1"),
+				stepDo("leader-keeps-one-follower+verify", whenSettled, func(w *World) {
+					l := w.leader()
+					f := w.aFollower()
+					for _, o := range w.nodes {
+						if o.id != l.id && o.id != f.id {
+							w.cut(l.id, o.id, true)
+							w.cut(f.id, o.id, true)
+						}
+					}
+					w.verify(l)
+				}),
+			}}
+	})
+}
